@@ -89,6 +89,11 @@ class HistFit(FitBase):
     def _init_nexus(self):
         super(HistFit, self)._init_nexus()
 
+        # names under which MultiFit looks up the nodes for shared errors (as in IndexedFit)
+        self._nexus.add_alias("y_data", alias_for="data")
+        self._nexus.add_alias("y_model", alias_for="model")
+        self._nexus.add_alias("y_total_cov_mat", alias_for="total_cov_mat")
+
         self._nexus.add_dependency("model", depends_on=("parameter_values"))
 
     def _set_new_data(self, new_data):
